@@ -88,6 +88,19 @@ def nodupNames : List Name → Bool
   | [] => true
   | n :: rest => !rest.contains n && nodupNames rest
 
+/-- `@oneOf` input object literal: exactly one field, not the `null` literal, and a variable
+there must be of a Non-Null type (VariablesInAllowedPosition, OneOf clause) -/
+def oneOfOk (env : List VarDef) (fs : List (Name × Value)) : Bool :=
+  match fs with
+  | [(_, v)] =>
+    (match v with
+      | .null => false
+      | .var x => (match env.find? (fun vd => vd.name == x) with
+        | some vd => vd.type.nonNull
+        | none => false)
+      | _ => true)
+  | _ => false
+
 mutual
 /-- ValuesOfCorrectType + VariablesInAllowedPosition + NoUndefinedVariables for a value in a
 position of type `t` whose location has a default iff `locDefault`. -/
@@ -104,6 +117,7 @@ def validValue (s : Schema) (env : List VarDef) : TypeRef → Bool → Value →
     | some (.input _ defs) =>
       nodupNames (fs.map (·.1)) &&
       defs.all (fun d => !d.required || (fs.map (·.1)).contains d.name) &&
+      (!s.isOneOf t.baseName || oneOfOk env fs) &&
       validObjFields s env defs fs
     | _ => false
   | t, _, .enum e =>
@@ -240,46 +254,71 @@ def validOp (s : Schema) (doc : Doc) (op : Operation) : Bool :=
 
 def validDoc (s : Schema) (doc : Doc) : Bool := doc.ops.all (validOp s doc)
 
-/-! ### the run-time exception of the specification -/
+/-! ### the run-time exception of the specification
+
+A nullable variable whose runtime value is `null` (given, or by a `null` default) sits in a
+Non-Null position.  In a document accepted by the rules such a usage exists only where it was
+allowed because a default exists (the variable's or the position's), which is exactly the case
+the specification defers to run time.  Decided per position: list items have no default, an
+input-object field has one only if its definition declares it. -/
 
 mutual
-/-- does the value use a variable that has the runtime value `null` (or no value with a `null`
-default) … -/
-def usesNullVar (vars : Vars) : Value → Bool
-  | .var x => match vars.lookup x with
-    | some .null => true
+def excValue (s : Schema) (env : List VarDef) (vars : Vars) : TypeRef → Value → Bool
+  | t, .var x =>
+    match env.find? (fun vd => vd.name == x), vars.lookup x with
+    | some vd, some .null => t.nonNull && !vd.type.nonNull
+    | _, _ => false
+  | .list t' _, .list vs => excItems s env vars t' vs
+  | t, .obj fs =>
+    match s.lookup t.baseName with
+    | some (.input _ defs) => excFields s env vars defs fs
     | _ => false
-  | .list vs => usesNullVarL vars vs
-  | .obj fs => usesNullVarO vars fs
-  | _ => false
-def usesNullVarL (vars : Vars) : List Value → Bool
+  | _, _ => false
+def excItems (s : Schema) (env : List VarDef) (vars : Vars) (t : TypeRef) : List Value → Bool
   | [] => false
-  | v :: vs => usesNullVar vars v || usesNullVarL vars vs
-def usesNullVarO (vars : Vars) : List (Name × Value) → Bool
+  | v :: vs => excValue s env vars t v || excItems s env vars t vs
+def excFields (s : Schema) (env : List VarDef) (vars : Vars) (defs : List ArgDef) :
+    List (Name × Value) → Bool
   | [] => false
-  | (_, v) :: fs => usesNullVar vars v || usesNullVarO vars fs
+  | (n, v) :: fs =>
+    (match defs.find? (fun d => d.name == n) with
+      | some d => excValue s env vars d.type v
+      | none => false) || excFields s env vars defs fs
 end
+
+def excArgs (s : Schema) (env : List VarDef) (vars : Vars) (defs : List ArgDef)
+    (args : List (Name × Value)) : Bool :=
+  args.any (fun p => match defs.find? (fun d => d.name == p.1) with
+    | some d => excValue s env vars d.type p.2
+    | none => false)
+
+def excDirs (s : Schema) (env : List VarDef) (vars : Vars) (dirs : List Directive) : Bool :=
+  dirs.any (fun d => excArgs s env vars [{ name := "if", type := boolNN, default := none }] d.args)
 
 mutual
-def nullVarInSel (vars : Vars) : Selection → Bool
-  | .field _ _ args dirs sels =>
-    args.any (fun p => usesNullVar vars p.2) ||
-    dirs.any (fun d => d.args.any (fun p => usesNullVar vars p.2)) || nullVarInSels vars sels
-  | .inline _ dirs sels =>
-    dirs.any (fun d => d.args.any (fun p => usesNullVar vars p.2)) || nullVarInSels vars sels
-  | .spread _ dirs => dirs.any (fun d => d.args.any (fun p => usesNullVar vars p.2))
-def nullVarInSels (vars : Vars) : List Selection → Bool
+def excSel (s : Schema) (env : List VarDef) (vars : Vars) (parent : Name) : Selection → Bool
+  | .field _ name args dirs sels =>
+    excDirs s env vars dirs ||
+    (match getFieldAny s parent name with
+      | some fd => excArgs s env vars fd.args args || excSels s env vars fd.type.baseName sels
+      | none => false)
+  | .inline cond dirs sels =>
+    excDirs s env vars dirs ||
+    excSels s env vars (match cond with | some c => c | none => parent) sels
+  | .spread _ dirs => excDirs s env vars dirs
+def excSels (s : Schema) (env : List VarDef) (vars : Vars) (parent : Name) : List Selection → Bool
   | [] => false
-  | sel :: rest => nullVarInSel vars sel || nullVarInSels vars rest
+  | sel :: rest => excSel s env vars parent sel || excSels s env vars parent rest
 end
 
-/-- Conservative over-approximation of "a nullable variable that is null reaches a position":
-some variable with runtime value `null` is used somewhere in the operation or its fragments.
-When this is false the run-time exception of the property cannot apply. -/
-def mayHitNullViaDefault (doc : Doc) (op : Operation) (vars : Vars) : Bool :=
-  nullVarInSels vars op.sels ||
-  (reachable doc op.sels).any (fun n => match doc.frag n with
-    | some fr => nullVarInSels vars fr.sels
-    | none => false)
+/-- the run-time exception applies to this request -/
+def mayHitNullViaDefault (s : Schema) (doc : Doc) (op : Operation) (vars : Vars) : Bool :=
+  match rootTypeOf s op.kind with
+  | none => false
+  | some root =>
+    excSels s op.vars vars root op.sels ||
+    (reachable doc op.sels).any (fun n => match doc.frag n with
+      | some fr => excSels s op.vars vars fr.cond fr.sels
+      | none => false)
 
 end Gql.Exec.Valid
